@@ -7,7 +7,6 @@ from buidl import op
 from buidl.script import Script
 from buidl.timelock import Locktime, Sequence
 from buidl.tx import Tx, TxIn
-from buidl.witness import Witness
 
 def run_op_nop(depth, e0, e1, e2, e3, e4, e5, e6):
     stack = [e0, e1, e2, e3, e4, e5, e6][7 - depth:]
